@@ -1,4 +1,5 @@
 import CasbinModel.Lemmas.RoleMgr
+import CasbinModel.Lemmas.PatRoles
 /-!
 # C03 — Role inheritance is reachability within the domain
 
@@ -181,5 +182,45 @@ example : chain12.hasLink 0 9 1 = false := by decide +kernel   -- another domain
 example : SpecPath ((LinkRel.empty.run
     [RmOp.add 1 2 0, .add 1 3 0, .add 2 4 0, .add 3 4 0, .add 4 1 0]) 0) 1 4 2 :=
   SpecPath.cons (b := 2) (by decide) (SpecPath.cons (b := 4) (by decide) (SpecPath.nil _))
+
+/-! ### The manager as written (`PatRoles.lean`: edge variants, matching functions, the three-part walk)
+
+With no matching function installed — how the `Enforcer` configures it — the general code path answers every
+history exactly as the model above (`Lemmas/PatRoles.lean`: the embedding commutes with `add_link`,
+`delete_link`, `clear`, `has_link`, `get_roles`, `get_users`), so C03 holds of it. -/
+
+/-- soundness, whatever the depth, for the manager as written -/
+theorem pat_history_sound (n : Nat) (h : List (RmOp α)) (a b d : α)
+    (hl : ((PRm.new n : PRm α).run none none h).hasLink none none a b d = true) :
+    a = b ∨ ∃ k, SpecPath ((LinkRel.empty.run h) d) a b k := by
+  rw [← new_toP, run_toP, hasLink_toP] at hl
+  exact history_sound n h a b d hl
+
+/-- completeness below the hierarchy limit, for the manager as written -/
+theorem pat_history_complete (n : Nat) (h : List (RmOp α)) (a b d : α)
+    (hp : a = b ∨ ∃ k, k < n ∧ SpecPath ((LinkRel.empty.run h) d) a b k) :
+    ((PRm.new n : PRm α).run none none h).hasLink none none a b d = true := by
+  rw [← new_toP, run_toP, hasLink_toP]
+  exact history_complete n h a b d hp
+
+/-- direct listings of the manager as written are the out- and in-neighbours -/
+theorem pat_listings (n : Nat) (h : List (RmOp α)) (a d x : α) :
+    (x ∈ ((PRm.new n : PRm α).run none none h).getRoles none none a d ↔ (LinkRel.empty.run h) d a x = true) ∧
+    (x ∈ ((PRm.new n : PRm α).run none none h).getUsers none none a d ↔ (LinkRel.empty.run h) d x a = true) := by
+  rw [← new_toP, run_toP, getRoles_toP, getUsers_toP]
+  exact ⟨(getRoles_eq _ (wf_run n h) a d x).trans (edges_run n h d a x),
+         (getUsers_eq _ (wf_run n h) a d x).trans (edges_run n h d x a)⟩
+
+/-- a failing `delete_link` of the manager as written fails in the plain model too, and conversely -/
+theorem pat_deleteLink_err (n : Nat) (h : List (RmOp α)) (a b d : α) :
+    (((PRm.new n : PRm α).run none none h).deleteLink none none a b d).isNone =
+      (((RoleMgr.new n : RoleMgr α).run h).deleteLink a b d).isNone := by
+  rw [← new_toP, run_toP, deleteLink_toP]
+  cases (RoleMgr.run (RoleMgr.new n) h).deleteLink a b d <;> simp
+
+/-- non-vacuity: the embedding is exercised on a history with a delete that fails, a clear and a re-add -/
+example : ((PRm.new 10 : PRm Nat).run none none [.add 1 2 0, .del 7 8 0, .add 2 3 0, .clear, .add 2 3 0]).hasLink none none 2 3 0 = true ∧
+    ((PRm.new 10 : PRm Nat).run none none [.add 1 2 0, .del 7 8 0, .add 2 3 0, .clear, .add 2 3 0]).hasLink none none 1 3 0 = false := by
+  decide +kernel
 
 end Casbin.C03
